@@ -330,7 +330,7 @@ def shrink(sc: dict) -> Iterable[dict]:
 
 
 _AUTOID = re.compile(r"'[0-9a-f]{16}'")
-_FLATSET = re.compile(r"\{('[^'{}]*'(?:, '[^'{}]*')+)\}")
+_FLATSET = re.compile(r"\{([^{}]*, [^{}]*)\}")  # any brace group without nesting: set (or dict) reprs
 PRETAG = True  # one evaluation costs several interpreter starts: classify before minimising
 
 
